@@ -262,6 +262,8 @@ class CInterp:
         self.opaque = set(opaque)
         self.opaque_loops = opaque_loops   # loops / undecided branches turn the variables they assign into opaque atoms
         self.depth = 0
+        self.script = None     # path enumeration: list of decisions for undecided `if`s, in order met (see enumerate_paths)
+        self.trace = []        # [(condition node, condition value, decision taken)]
 
     def _havoc(self, node, env):
         """Variables assigned anywhere inside `node` become opaque atoms acc_<name>."""
@@ -512,6 +514,10 @@ class CInterp:
             cond, then = inner[0], inner[1]
             els = inner[2] if len(inner) > 2 else None
             t = self.decide(cond, env)
+            if t is None and self.script is not None:
+                i = len(self.trace)
+                t = self.script[i] if i < len(self.script) else True
+                self.trace.append((cond, self.expr(cond, env), t))
             if t is None:
                 if self.opaque_loops:
                     self._havoc(st, env)
@@ -568,6 +574,50 @@ class CInterp:
             return ret.value
         finally:
             self.depth -= 1
+
+
+def enumerate_paths(run, limit=16):
+    """Path enumeration over the undecided `if` statements of a C helper.  `run(interp_setup)` is called with a decision
+    script and must return (trace, result) where trace is the interpreter's trace; every path (up to `limit`) is
+    explored by flipping decisions depth-first.  Returns [(trace, result)]."""
+    out = []
+    todo = [[]]
+    while todo:
+        script = todo.pop()
+        trace, result = run(script)
+        out.append((trace, result))
+        if len(out) > limit:
+            raise AnalysisError("nf: more than %d paths" % limit)
+        for i in range(len(script), len(trace)):
+            todo.append([t[2] for t in trace[:i]] + [not trace[i][2]])
+    return out
+
+
+def path_assumptions(trace):
+    """Equalities implied by the decisions of a path: {symbol: value} for `sym == value` conjuncts taken true (and
+    `sym != value` taken false)."""
+    subs = {}
+    def conj(e, positive):
+        fn = getattr(getattr(e, "func", None), "__name__", "")
+        if fn == "c_and" and positive:
+            for a in e.args:
+                conj(a, True)
+        elif fn == "c_or" and not positive:
+            for a in e.args:
+                conj(a, False)
+        elif (fn == "c_eq" and positive) or (fn == "c_ne" and not positive):
+            a, b = e.args
+            if a.is_Symbol and not b.free_symbols:
+                subs[a] = b
+            elif b.is_Symbol and not a.free_symbols:
+                subs[b] = a
+    for _, val, choice in trace:
+        conj(val, choice)
+    return subs
+
+
+def path_text(trace):
+    return " && ".join(("" if ch else "!") + "(" + c_text(c) + ")" for c, _, ch in trace) or "always"
 
 
 # ---------------------------------------------------------------------------
